@@ -9,6 +9,8 @@ import (
 	"fmt"
 	"testing"
 
+	"golang.org/x/sys/unix"
+
 	"github.com/panjf2000/gnet/v2/internal/verifmc/mcsys"
 	"github.com/panjf2000/gnet/v2/internal/verifmc/sched"
 	"github.com/panjf2000/gnet/v2/internal/verifmc/seqmc"
@@ -39,6 +41,8 @@ type outCfg struct {
 	sndbuf  int
 	deviate bool
 	heavy   bool
+	tcp     bool // loopback TCP instead of a unix socket (EPOLLOUT edges only after the socket had been full)
+	chunk   int  // EdgeTriggeredIOChunk (0 = default)
 }
 
 type outState struct {
@@ -162,6 +166,14 @@ func outWorld(c outCfg) *world {
 	if c.sndbuf > 0 {
 		w.opts = append(w.opts, WithSocketSendBuffer(c.sndbuf))
 	}
+	if c.chunk > 0 {
+		w.opts = append(w.opts, WithEdgeTriggeredIOChunk(c.chunk))
+	}
+	if c.tcp {
+		a := &unix.SockaddrInet4{Addr: [4]byte{127, 0, 0, 1}}
+		w.addr = fmt.Sprintf("tcp://127.0.0.1:%d", freeTCPPort(a, false))
+		w.opts = append(w.opts, WithReuseAddr(true))
+	}
 	st := &outState{}
 	w.aux = st
 	if c.deviate {
@@ -203,6 +215,9 @@ func outWorld(c outCfg) *world {
 		return None
 	}
 	w.script = func(w *world) {
+		if c.tcp {
+			sched.SetSettle(6) // loopback TCP delivers asynchronously
+		}
 		done := 0
 		expected := func() int { return total(st.cbSeq, st.userSeq) }
 		planned := 0
@@ -457,12 +472,20 @@ func outConfigs(thorough bool) []outCfg {
 		{"onopen-reply-only", outCfg{wcap: 1024, reply: 1025, inTraf: []outOp{{"write", []int{4}}}, deviate: true}, false},
 		{"async-one-goroutine", outCfg{wcap: 1024, user: []outOp{{"asyncwrite", []int{5, 1025}}, {"asyncwritev", []int{3, 0, 4}}}, deviate: true, heavy: true}, true},
 		{"async+callback-writes", outCfg{wcap: 1024, inTraf: []outOp{{"write", []int{6}}}, user: []outOp{{"asyncwrite", []int{5}}, {"asyncwrite", []int{9}}}, heavy: true}, false},
+		// TCP: an EPOLLOUT edge comes only after the socket had been full, so in ET mode a write round
+		// that stops at the chunk limit with output still pending depends on the loop re-issuing the
+		// write itself (on a unix socket every read of the peer raises a fresh edge and hides a lost
+		// continuation). A short write of exactly half of 2048 makes the round end at exactly the chunk.
+		{"tcp-chunk1024-readfrom2048+flush", outCfg{wcap: 1024, chunk: 1024, tcp: true, inTraf: []outOp{{"readfrom+flush", []int{2048}}, {"write", []int{1}}}, deviate: true}, true},
 		{"write0", outCfg{wcap: 1024, inTraf: []outOp{{"write", []int{0, 1, 0}}, {"writev", []int{0}}, {"writev", nil}}}, false},
 	}
 	for _, mode := range []string{"LT", "ET"} {
 		for _, p := range progs {
 			if !thorough && !p.always {
 				continue
+			}
+			if p.cfg.chunk > 0 && mode == "LT" {
+				continue // WithEdgeTriggeredIOChunk implies edge-triggered I/O
 			}
 			c := p.cfg
 			c.mode = mode
@@ -483,7 +506,7 @@ func outSchedConfigs() ([]sched.Config, func(string) *sched.Config) {
 		if thorough {
 			bounds = append(bounds, sched.Bound{PB: 1, DB: 2}, sched.Bound{PB: 2, DB: 1})
 		}
-		return sched.Config{Property: "C02", Name: c.name, Bounds: bounds, Horizon: 60000, Deadline: seqmc.Deadline(), DelayBounded: true, New: func() sched.Scenario { return outWorld(c) }}
+		return sched.Config{Property: "C02", Name: c.name, Bounds: bounds, Horizon: 60000, Deadline: seqmc.Deadline(), DelayBounded: true, TolerateNondeterminism: c.tcp, New: func() sched.Scenario { return outWorld(c) }}
 	}
 	var all []sched.Config
 	for _, c := range outConfigs(true) {
